@@ -545,6 +545,12 @@ type dispatchEnv struct {
 	s          *schema.Schema
 	reqT, resT planTarget
 	registered map[uint32]bool
+	// set by runDepth (c06_depth.go): a note appended to the details of runTree's violations, the encodings to
+	// evaluate (nil = all), the deepest generic position reached
+	where       string
+	keyExtra    string
+	only        map[string]bool
+	maxEnvelope int
 }
 
 // runTree decodes the three encodings of an independently built message tree. expect: "ok" (must be accepted),
@@ -556,6 +562,9 @@ func (e *dispatchEnv) runTree(t *tree.Item, response bool, expect string, opaque
 	}
 	bin := t.Encode()
 	for _, enc := range encodeTree(t) {
+		if e.only != nil && !e.only[enc.codec] {
+			continue
+		}
 		line := dispatchLine(enc.codec, tg.dyn, enc.doc)
 		e.ctx.current = line
 		ptr := reflect.New(tg.ty.Elem())
@@ -581,12 +590,12 @@ func (e *dispatchEnv) runTree(t *tree.Item, response bool, expect string, opaque
 		e.ctx.Res.Count("dispatch." + class + "." + enc.codec + "." + impl)
 		if impl == "panic" {
 			if expect != "" {
-				c06Violate(e.ctx, line, class+":decoder-panic", fmt.Sprintf("%s (%s): the decoder panicked (%s) where the property requires %s", class, enc.codec, pn, expect))
+				c06Violate(e.ctx, line, class+e.keyExtra+":decoder-panic", fmt.Sprintf("%s (%s): the decoder panicked (%s) where the property requires %s%s", class, enc.codec, pn, expect, e.where))
 			}
 			continue // otherwise C02's business (its engines decode the same classes)
 		}
 		if expect != "" && impl != expect {
-			c06Violate(e.ctx, line, class+":expected-"+expect, fmt.Sprintf("%s (%s): decoder answered %s, the property requires %s (%v)", class, enc.codec, impl, expect, derr))
+			c06Violate(e.ctx, line, class+e.keyExtra+":expected-"+expect, fmt.Sprintf("%s (%s): decoder answered %s, the property requires %s (%v)%s", class, enc.codec, impl, expect, derr, e.where))
 		}
 		if impl != "ok" {
 			continue
@@ -599,7 +608,7 @@ func (e *dispatchEnv) runTree(t *tree.Item, response bool, expect string, opaque
 				if bt, err := tree.Decode(back); err == nil {
 					got = bt.Render()
 				}
-				c06Violate(e.ctx, line, class+":opaque-not-preserved", fmt.Sprintf("%s (%s): the decoded message does not re-encode to the original bytes: %s", class, enc.codec, firstDiff(t.Render(), got)))
+				c06Violate(e.ctx, line, class+e.keyExtra+":opaque-not-preserved", fmt.Sprintf("%s (%s): the decoded message does not re-encode to the original bytes: %s%s", class, enc.codec, firstDiff(t.Render(), got), e.where))
 			}
 		}
 	}
@@ -666,7 +675,7 @@ func (e *dispatchEnv) runValue(msg any, response bool, class string) {
 func init() {
 	register(&Engine{
 		Name: "dispatch",
-		Rule: "C06 through the three encodings (binary by the independent writer, XML/JSON by the library's generic value writer or, for typed messages, its typed writers): every operation code 0..0x40 and 0x7FFFFFFF, 0x80000000, 0xFFFFFFFF x request/response with an opaque payload (unregistered codes — the 16 named-but-unimplemented ones included — must decode to UnknownPayload reporting that code and re-encode to the identical bytes); Import requests without / with two different / with a late / with an ill-typed Object Type attribute; Get/Export/Register with mismatching and unregistered object types; unknown and custom attribute names with values of every TTLV type (opaque, identical re-encoding); every standard attribute name with a value of its SPECIFIED type (pinned table Pinned/AttrSpec.lean served by the model: must be accepted and come back with that type) and of every other plain type (must be rejected); populated messages restricted to text-representable content decoded from XML and JSON with the registered-type walk and a comparison of the dynamic types with the original; distinct = distinct line; nontrivial = all",
+		Rule: "C06 through the three encodings (binary by the independent writer, XML/JSON by the library's generic value writer or, for typed messages, its typed writers): every operation code 0..0x40 and 0x7FFFFFFF, 0x80000000, 0xFFFFFFFF x request/response with an opaque payload (unregistered codes — the 16 named-but-unimplemented ones included — must decode to UnknownPayload reporting that code and re-encode to the identical bytes); Import requests without / with two different / with a late / with an ill-typed Object Type attribute; Get/Export/Register with mismatching and unregistered object types; unknown and custom attribute names with values of every TTLV type (opaque, identical re-encoding); every standard attribute name with a value of its SPECIFIED type (pinned table Pinned/AttrSpec.lean served by the model: must be accepted and come back with that type) and of every other plain type (must be rejected); populated messages restricted to text-representable content decoded from XML and JSON with the registered-type walk and a comparison of the dynamic types with the original; generic structures nested 1..64 deep at every generic position of the typed envelope (unknown payloads, vendor extensions, custom / unknown attributes down to the attributes of a key value, server information; directed positions x 64 depths and every position the populator reaches): accepted whenever the same message with a text value there is, identical re-encoding; operations and object types registered at run time through the public API in a child process (vendor and unused standard codes: opaque / error before, the registered type after, neighbours and built-ins unchanged, mixed batches); distinct = distinct line; nontrivial = all",
 		Run:  runDispatch,
 	})
 }
@@ -682,6 +691,15 @@ func runDispatch(ctx *Ctx) {
 		e.registered[uint32(o.Operation)] = true
 	}
 	if len(ctx.Replay) > 0 {
+		regLines := map[string]bool{}
+		for _, l := range ctx.Replay {
+			if strings.HasPrefix(l, "#c06.reg ") {
+				regLines[l] = true
+			}
+		}
+		if len(regLines) > 0 {
+			runDispatchRegistered(ctx, regLines)
+		}
 		for _, l := range ctx.Replay {
 			f := strings.SplitN(l, " ", 4)
 			if len(f) == 4 && f[0] == "plan.dec" {
@@ -989,9 +1007,15 @@ func runDispatch(ctx *Ctx) {
 		}
 	}
 
+	// ---- 9. opaque content at every nesting depth 1..64 and at every generic position of the typed envelope ----
+	e.runOpaqueDepth()
+
+	// ---- 10. operations and object types registered at RUN TIME through the public API (in a child process) ----
+	runDispatchRegistered(ctx, nil)
+
 	// coverage floor: every directed class must have produced decodes in the three encodings
 	var missing []string
-	for _, class := range []string{"unregistered-op", "opaque-attribute", "import-wellformed", "import-no-object-type", "conforming",
+	for _, class := range []string{"opaque-depth", "unregistered-op", "opaque-attribute", "import-wellformed", "import-no-object-type", "conforming",
 		"unregistered-op-high-bits", "item-context", "unregistered-op-failed-status", "near-standard-attribute-name", "object-matrix-same-type", "object-matrix-other-type", "object-matrix-unregistered-type"} {
 		for _, codec := range []string{"ttlv", "xml", "json"} {
 			if ctx.Res.Distribution["dispatch."+class+"."+codec+".ok"]+ctx.Res.Distribution["dispatch."+class+"."+codec+".err"] == 0 {
